@@ -7,7 +7,8 @@
    run; strings are lists of characters with the str/int/format semantics of lib/PyStr.v; fullmatch is lib/RegexSub.v. *)
 From Coq Require Import ZArith Bool Ascii String List.
 From Verif Require Import lib.Calendar lib.RegexSub lib.PyStr lib.DatesBase gen.DatesGen model.Dates model.Codecs
-     proofs.DatesProofs proofs.CodecsProofs gen.CodecsExtGen model.CodecsExt proofs.CodecsExtProofs.
+     proofs.DatesProofs proofs.CodecsProofs gen.CodecsExtGen model.CodecsExt proofs.CodecsExtProofs
+     model.CodecsExt2 proofs.CodecsExt2Proofs.
 Import ListNotations.
 Open Scope Z_scope.
 
@@ -100,13 +101,110 @@ Theorem C11_sheet_iso_roundtrip : forall pos blocks, Forall (block_ok in_domain)
 Proof. exact sheet_iso_roundtrip. Qed.
 Print Assumptions C11_sheet_iso_roundtrip.
 
-(* start_period_only=True: the first cell is decoded, row i is start + i (one-period block, any padding) *)
-Theorem C11_sheet_start_only_partial : forall p total, sdmx_domain p ->
-  exists x cells, export_column (fmt_period FmtSdmx) total [p] = Ok (x :: cells) /\
-    extract_block (parse_cell ParSdmx) true (p_freq p) (x :: cells)
-      = Ok (map (fun j => (j, padd p j)) (zrange 0 (S (length cells)))).
-Proof. exact sheet_start_only_sdmx. Qed.
-Print Assumptions C11_sheet_start_only_partial.
+(* start_period_only=True, in general (a block of any length, any padding `total`, SDMX and ISO codecs at every position):
+   only the first cell is decoded; the rows of the block are start + 0, start + 1, ... for EVERY data row of the sheet
+   (start_only_rows p0 n = [(0, p0 + 0); ...; (n-1, p0 + (n-1))], padding rows included); on the block's own rows the import
+   returns exactly the exported periods IF AND ONLY IF the block is a run of consecutive periods (run_from p0 n). *)
+Theorem C11_sheet_start_only_sdmx : forall b total, block_ok sdmx_domain b ->
+  exists p0 rest cells,
+    snd b = p0 :: rest /\
+    export_column (fmt_period FmtSdmx) total (snd b) = Ok cells /\
+    length cells = (length (snd b) + gen_export_padding total (length (snd b)))%nat /\
+    extract_block (parse_cell ParSdmx) true (fst b) cells = Ok (start_only_rows p0 (length cells)) /\
+    (firstn (length (snd b)) (start_only_rows p0 (length cells)) = enumerate_from 0 (snd b)
+       <-> snd b = run_from p0 (length (snd b))).
+Proof. exact sheet_start_only_sdmx_general. Qed.
+Print Assumptions C11_sheet_start_only_sdmx.
+
+Theorem C11_sheet_start_only_iso : forall pos b total, block_ok in_domain b ->
+  exists p0 rest cells,
+    snd b = p0 :: rest /\
+    export_column (fmt_period (FmtIso pos)) total (snd b) = Ok cells /\
+    length cells = (length (snd b) + gen_export_padding total (length (snd b)))%nat /\
+    extract_block (parse_cell ParIso) true (fst b) cells = Ok (start_only_rows p0 (length cells)) /\
+    (firstn (length (snd b)) (start_only_rows p0 (length cells)) = enumerate_from 0 (snd b)
+       <-> snd b = run_from p0 (length (snd b))).
+Proof. exact sheet_start_only_iso_general. Qed.
+Print Assumptions C11_sheet_start_only_iso.
+
+(* ... and the whole sheet (any number of blocks): every block is a function of its own first cell and of the number of
+   data rows of the sheet, nothing else *)
+Theorem C11_sheet_start_only_sdmx_sheet : forall blocks, Forall (block_ok sdmx_domain) blocks ->
+  exists cols, export_sheet (fmt_period FmtSdmx) blocks = Ok cols /\
+    import_sheet (parse_cell ParSdmx) true cols
+      = Ok (map (fun b => (fst b, start_only_rows (hd (mkP 0 0) (snd b))
+                   (length (snd b) + gen_export_padding (total_rows blocks) (length (snd b))))) blocks).
+Proof. exact sheet_start_only_sdmx_sheet. Qed.
+Print Assumptions C11_sheet_start_only_sdmx_sheet.
+
+Theorem C11_sheet_start_only_iso_sheet : forall pos blocks, Forall (block_ok in_domain) blocks ->
+  exists cols, export_sheet (fmt_period (FmtIso pos)) blocks = Ok cols /\
+    import_sheet (parse_cell ParIso) true cols
+      = Ok (map (fun b => (fst b, start_only_rows (hd (mkP 0 0) (snd b))
+                   (length (snd b) + gen_export_padding (total_rows blocks) (length (snd b))))) blocks).
+Proof. exact sheet_start_only_iso_sheet. Qed.
+Print Assumptions C11_sheet_start_only_iso_sheet.
+
+(* non-vacuity: a consecutive quarterly block is a run; a block with a hole is not, and its second row is read as start + 1 *)
+Example C11_start_only_example :
+  block_ok in_domain (4, [mkP 4 8084; mkP 4 8085; mkP 4 8086]) /\ block_ok in_domain (4, [mkP 4 8084; mkP 4 8086]) /\
+  [mkP 4 8084; mkP 4 8085; mkP 4 8086] = run_from (mkP 4 8084) 3 /\ [mkP 4 8084; mkP 4 8086] <> run_from (mkP 4 8084) 2 /\
+  bind (export_column (fmt_period (FmtIso PEnd)) 4 [mkP 4 8084; mkP 4 8086]) (extract_block (parse_cell ParIso) true 4)
+    = Ok [(0, mkP 4 8084); (1, mkP 4 8085); (2, mkP 4 8086); (3, mkP 4 8087)].
+Proof. exact start_only_example. Qed.
+
+(* duplicate periods inside a block and unsorted rows (nothing in block_ok asks for sorted or distinct periods): the rows read
+   are (i, the period written in row i); Series.set_data writes them in order, so the imported series holds at q the LAST row
+   that carries q (series_lookup), holds nothing at a period that was not written, and when no period repeats every row is
+   visible whatever the order of the rows (surviving_rows = the rows read) *)
+Theorem C11_sheet_last_write_sdmx : forall b total, block_ok sdmx_domain b ->
+  exists cells, export_column (fmt_period FmtSdmx) total (snd b) = Ok cells /\
+    extract_block (parse_cell ParSdmx) false (fst b) cells = Ok (enumerate_from 0 (snd b)) /\
+    (forall q, series_lookup (enumerate_from 0 (snd b)) q = None <-> ~ In q (snd b)) /\
+    (forall q i, series_lookup (enumerate_from 0 (snd b)) q = Some i <->
+       exists r1 r2, enumerate_from 0 (snd b) = r1 ++ (i, q) :: r2 /\ ~ In q (map snd r2)) /\
+    (NoDup (snd b) -> surviving_rows (enumerate_from 0 (snd b)) = enumerate_from 0 (snd b)).
+Proof. exact sheet_block_last_write_sdmx. Qed.
+Print Assumptions C11_sheet_last_write_sdmx.
+
+Theorem C11_sheet_last_write_iso : forall pos b total, block_ok in_domain b ->
+  exists cells, export_column (fmt_period (FmtIso pos)) total (snd b) = Ok cells /\
+    extract_block (parse_cell ParIso) false (fst b) cells = Ok (enumerate_from 0 (snd b)) /\
+    (forall q, series_lookup (enumerate_from 0 (snd b)) q = None <-> ~ In q (snd b)) /\
+    (forall q i, series_lookup (enumerate_from 0 (snd b)) q = Some i <->
+       exists r1 r2, enumerate_from 0 (snd b) = r1 ++ (i, q) :: r2 /\ ~ In q (map snd r2)) /\
+    (NoDup (snd b) -> surviving_rows (enumerate_from 0 (snd b)) = enumerate_from 0 (snd b)).
+Proof. exact sheet_block_last_write_iso. Qed.
+Print Assumptions C11_sheet_last_write_iso.
+
+Example C11_last_write_example :
+  surviving_rows (enumerate_from 0 [mkP 4 8086; mkP 4 8084; mkP 4 8086; mkP 4 8085])
+    = [(1, mkP 4 8084); (2, mkP 4 8086); (3, mkP 4 8085)] /\
+  series_lookup (enumerate_from 0 [mkP 4 8086; mkP 4 8084; mkP 4 8086; mkP 4 8085]) (mkP 4 8086) = Some 2 /\
+  series_lookup (enumerate_from 0 [mkP 4 8086; mkP 4 8084; mkP 4 8086; mkP 4 8085]) (mkP 4 8087) = None.
+Proof. exact last_write_example. Qed.
+
+(* 6'. eval(repr(p)) = p on the TEXT: the text written by repr (yy(2020), qq(2020,1), dd(2020,1,31), ii(-5), ...) is read by
+       the parser of the repr grammar (name, "(", optionally signed integers separated by ",", ")") as exactly the constructor
+       and integers of the structured term, whose evaluation is p -- every period of every class *)
+Theorem C11_repr_text_roundtrip : forall p, sdmx_domain p ->
+  exists x t, repr_str p = Ok x /\ parse_repr x = Some t /\ repr_term p = Ok t /\ eval_term t = Ok p /\
+              eval_repr_text x = Ok p.
+Proof. exact repr_text_roundtrip. Qed.
+Print Assumptions C11_repr_text_roundtrip.
+
+(* the parser reads back every call text, negative integers included *)
+Theorem C11_parse_call : forall name a r, forallb is_letter name = true -> parse_repr (call_text name a r) = Some (name, a :: r).
+Proof. exact parse_call. Qed.
+Print Assumptions C11_parse_call.
+
+Example C11_repr_text_example :
+  sdmx_domain (mkP freq_INTEGER (-5)) /\ repr_str (mkP freq_INTEGER (-5)) = Ok (s2l "ii(-5)") /\
+  parse_repr (s2l "ii(-5)") = Some (s2l "ii", [-5]) /\ eval_repr_text (s2l "ii(-5)") = Ok (mkP freq_INTEGER (-5)) /\
+  parse_repr (s2l "dd(2021,7,29)") = Some (s2l "dd", [2021; 7; 29]) /\
+  eval_repr_text (s2l "dd(2021,7,29)") = Ok (mkP freq_DAILY 738000) /\
+  parse_repr (s2l "qq(2021,1") = None /\ parse_repr (s2l "qq(2021,,1)") = None /\ parse_repr (s2l "qq(2021,1))") = None.
+Proof. exact repr_text_example. Qed.
 
 (* 11. periods reached by arithmetic with Python-int or numpy-int offsets (p + k, k + p, p - k, p.shift(k), any
        history): the serial is a builtin int, the period is the one computed on plain integers, its repr text is the
